@@ -83,7 +83,7 @@ theorem lineSearch_descent (c : Consts α) (hc : 0 ≤ c.suffDecr) (sparse : Boo
     rcases key.2 with hcount | ⟨f, hf, hle⟩
     · have hw := hcond.1 (by omega)
       cases hfn : r.fNew with
-      | none => rw [hfn] at hw; simp [lsWorse] at hw
+      | none => rw [hfn] at hw; simp [lsWorse, NumOps.ofField] at hw
       | some f =>
         rw [hfn] at hw
         have : ¬ rowNegLL (NumOps.ofField log) sparse x Pi mOld R < f := by
